@@ -8,7 +8,12 @@ class ToGFA2:
       if isinstance(oline.line, gfapy.line.segment.GFA1):
         items.append(str(oline))
       elif isinstance(oline.line, gfapy.line.edge.Link):
-        items.append(oline.line.eid + str(oline.orient))
+        eid = oline.line.eid
+        if gfapy.is_placeholder(eid):
+          # the link has no ID yet: assign one, as its own conversion does
+          eid = self._gfa.unused_name()
+          oline.line.set("ID", eid)
+        items.append(eid + str(oline.orient))
     a = ["O"]
     a.append(self.field_to_s("path_name"))
     a.append(" ".join(items))
